@@ -54,6 +54,9 @@ fn main() {
             for _ in 0..fv::arg_u64("n", 50) {
                 let scalars = xplor::universe(&mut rng);
                 let mut cfg = xplor::default_cfg(&mut rng, &scalars);
+                // in a quarter of the programs some guards are not complementary (a lone guarded edge, independent
+                // conditions): the chains of a guarded edge are claimed for every edge, not only for pairs
+                cfg.partial_guards_pct = if rng.chance(1, 4) { 25 } else { 0 };
                 cfg.unreachable_blocks = rng.chance(1, 4);
                 let function = fv::gen::any_function(&mut rng, &cfg, 0x1000);
                 let x = XProg {
